@@ -289,9 +289,10 @@ func MakeTLSConfig(configs []*Config) (*tls.Config, error) {
 
 	for i, cfg := range configs {
 		if cfg == nil {
-			// avoid nil pointer dereference below this loop
-			configs[i] = new(Config)
-			continue
+			// avoid nil pointer dereference; a missing config
+			// is a config without TLS, wherever it stands
+			cfg = new(Config)
+			configs[i] = cfg
 		}
 
 		// can't serve TLS and non-TLS on same port
